@@ -268,12 +268,21 @@ class BuiltinMixin:
         items = self.list_items(lst, st)
         j = z3.Int("j!sl")
         if stepv == 1:
+            st.assume(n <= 2 ** 63 - 1)        # len() of a list never exceeds sys.maxsize
             a = self.clamp_slice(lo, n, z3.IntVal(0))
             b = self.clamp_slice(hi, n, n)
             m = z3.If(b > a, b - a, 0)
             return self.new_list(ety, st, m, self.def_array(st, j, z3.Select(items, a + j)))
         if stepv == -1 and lo is None and hi is None:
-            return self.new_list(ety, st, n, self.def_array(st, j, z3.Select(items, n - 1 - j)))
+            # xs[::-1]: position j holds xs[rev(j)], rev(j) = n-1-j, rev its own inverse (a named function keeps the
+            # quantifier triggers usable in both directions: from a position of the copy and from a position of xs)
+            rev = fresh_fn("rev", I, I)
+            k0 = fresh("rv", I)
+            st.assume(z3.ForAll([k0], z3.And(rev(k0) == n - 1 - k0, rev(rev(k0)) == k0), patterns=[rev(k0)]))
+            rarr = self.def_array(st, j, z3.Select(items, rev(j)))
+            st.assume(z3.ForAll([k0], z3.And(rev(rev(k0)) == k0, z3.Implies(z3.And(0 <= k0, k0 < n), z3.Select(rarr, rev(k0)) == z3.Select(items, k0))),
+                                patterns=[z3.Select(items, k0)]))
+            return self.new_list(ety, st, n, rarr)
         raise Unsupported("slice step")
 
     def list_equal(self, a, b, st):
@@ -1073,6 +1082,15 @@ class BuiltinMixin:
             eq = self.equal(ka[1], kb[1], sub)
             st.assume(z3.ForAll([a, b], z3.Implies(z3.And(0 <= a, a < b, b < n),
                                                    z3.And(le, z3.Implies(eq, perm(a) < perm(b))))))
+            # consequences for the two ends (the idioms sorted(xs)[0] / sorted(xs)[-1]), stated per *source* position so
+            # that a fact about xs[i] finds them: key(xs[i]) lies between the keys of the first and the last element
+            i0 = fresh("si", I)
+            ki = self.sort_key(lst, keyfn, i0, sub, items=src)
+            k_first = self.sort_key(out, keyfn, z3.IntVal(0), sub, items=new_items)
+            k_last = self.sort_key(out, keyfn, n - 1, sub, items=new_items)
+            lo_ok = self.key_le(ki[1], k_first[1], sub) if rev else self.key_le(k_first[1], ki[1], sub)
+            hi_ok = self.key_le(k_last[1], ki[1], sub) if rev else self.key_le(ki[1], k_last[1], sub)
+            st.assume(z3.ForAll([i0], z3.Implies(z3.And(0 <= i0, i0 < n), z3.And(lo_ok, hi_ok)), patterns=[z3.Select(src, i0)]))
         out.x["perm"] = perm
         out.x["pinv"] = pinv
         a2 = z3.Int("j!pm")
